@@ -1,3 +1,4 @@
+(* Proofs about the chunk packer and the feedback builder (Model/TwccChunk.v). *)
 From IV Require Import Base.Word Model.TwccChunk.
 From Coq Require Import ZifyBool.
 Ltac Zify.zify_post_hook ::= Z.div_mod_to_equations.
@@ -7,4 +8,295 @@ Proof.
   unfold inc16, add16; cbv zeta.
   destruct ((0 <=? x + 1) && (x + 1 <? 65536)) eqn:E; [|reflexivity].
   symmetry; apply Z.mod_small; lia.
+Qed.
+
+(* ------------------------------------------------------------------ *)
+(* symbols and expansion of emitted chunks                             *)
+(* ------------------------------------------------------------------ *)
+Definition is_sym (d : Z) : Prop := d = 0 \/ d = 1 \/ d = 2.
+Definition syms_ok (l : list Z) : Prop := Forall is_sym l.
+
+(* the statuses a chunk stands for on the wire: run length x symbol,
+   14 one-bit or 7 two-bit symbols (short vectors padded with 0) *)
+Definition pexpand (p : pchunk) : list Z :=
+  match p with
+  | RL s n => repeat s (Z.to_nat n)
+  | SV1 l => pad_to 14 l
+  | SV2 l => pad_to 7 l
+  end.
+Definition pexpand_all (chs : list pchunk) : list Z := flat_map pexpand chs.
+
+(* the abstract content of a chunk state: the slice c.deltas in order *)
+Definition pend (c : chunk) : list Z := rev (c_rev c).
+
+Definition chunk_wf (c : chunk) : Prop :=
+  c_n c = Z.of_nat (length (pend c)) /\ c_first c = hd 0 (pend c) /\
+  c_large c = has_large (pend c) /\ c_diff c = has_diff (pend c).
+
+(* "pending is always encodable" *)
+Definition enc_inv (c : chunk) : Prop :=
+  c_n c <= 7 \/ (c_n c <= 14 /\ c_large c = false) \/ (c_n c <= 8191 /\ c_diff c = false).
+
+Lemma chunk_wf_empty : chunk_wf chunk_empty.
+Proof. repeat split. Qed.
+
+Lemma chunk_wf_of_list l : chunk_wf (chunk_of_list l).
+Proof.
+  unfold chunk_wf, pend, chunk_of_list; cbn [c_n c_first c_large c_diff c_rev].
+  rewrite rev_involutive. repeat split.
+Qed.
+
+Lemma pend_of_list l : pend (chunk_of_list l) = l.
+Proof. unfold pend, chunk_of_list; cbn [c_rev]. apply rev_involutive. Qed.
+
+Lemma has_large_app l d : has_large (l ++ [d]) = has_large l || (d =? 2).
+Proof. unfold has_large. rewrite existsb_app. cbn [existsb]. rewrite orb_false_r. reflexivity. Qed.
+
+Lemma has_diff_app l d : has_diff (l ++ [d]) = has_diff l || negb (d =? hd d l).
+Proof.
+  destruct l as [|x tl]; cbn [app has_diff hd].
+  - cbn [existsb]. rewrite Z.eqb_refl. reflexivity.
+  - change (x :: tl ++ [d]) with ((x :: tl) ++ [d]). rewrite existsb_app. cbn [existsb].
+    rewrite orb_false_r. reflexivity.
+Qed.
+
+Lemma pend_add c d : pend (chunk_add c d) = pend c ++ [d].
+Proof. unfold pend, chunk_add; cbn [c_rev]. reflexivity. Qed.
+
+Lemma chunk_wf_add c d : chunk_wf c -> chunk_wf (chunk_add c d).
+Proof.
+  intros (Hn & Hf & Hl & Hd). unfold chunk_wf. rewrite pend_add.
+  unfold chunk_add; cbn [c_n c_first c_large c_diff].
+  rewrite app_length, has_large_app, has_diff_app. cbn [length].
+  destruct (pend c) as [|x tl] eqn:E.
+  - cbn [length] in Hn. rewrite Hn. cbn [Z.of_nat Z.eqb app hd]. repeat split; try lia; congruence.
+  - cbn [length] in Hn. destruct (c_n c =? 0) eqn:E0; [lia|].
+    cbn [hd app length] in *. repeat split; try lia; try congruence.
+Qed.
+
+(* when there are no different types every symbol equals the first *)
+Lemma has_diff_false_repeat l : has_diff l = false -> l = repeat (hd 0 l) (length l).
+Proof.
+  destruct l as [|x tl]; [reflexivity|]. cbn [has_diff hd length repeat]. intros H.
+  cbn [existsb] in H. apply orb_false_elim in H as [_ H]. f_equal.
+  induction tl as [|y tl IH]; [reflexivity|]. cbn [existsb] in H.
+  apply orb_false_elim in H as [Hy H]. cbn [length repeat].
+  apply negb_false_iff, Z.eqb_eq in Hy. subst y. f_equal. apply IH, H.
+Qed.
+
+Lemma pad_to_exact n l : length l = n -> pad_to n l = l.
+Proof. revert l; induction n as [|n IH]; intros [|x tl] H; cbn in *; try discriminate; auto. f_equal. apply IH. lia. Qed.
+
+Lemma pad_to_short n l : (length l <= n)%nat -> pad_to n l = l ++ repeat 0 (n - length l).
+Proof.
+  revert l; induction n as [|n IH]; intros [|x tl] H; cbn [pad_to length app] in *; try lia; auto.
+  - cbn. f_equal. specialize (IH [] ltac:(cbn; lia)). cbn in IH. rewrite IH. f_equal; lia.
+  - rewrite IH by lia. reflexivity.
+Qed.
+
+(* ------------------------------------------------------------------ *)
+(* the packer invariant                                                *)
+(* ------------------------------------------------------------------ *)
+(* state (emitted chunks, last chunk) has been fed exactly [fed] *)
+Definition pack_inv (st : list pchunk * chunk) (fed : list Z) : Prop :=
+  let '(chs, c) := st in
+  chunk_wf c /\ enc_inv c /\ pexpand_all chs ++ pend c = fed.
+
+Lemma pexpand_all_app a b : pexpand_all (a ++ b) = pexpand_all a ++ pexpand_all b.
+Proof. unfold pexpand_all. apply flat_map_app. Qed.
+
+Ltac split_ifs :=
+  repeat match goal with
+  | |- context [if ?c then _ else _] =>
+      match c with context [if _ then _ else _] => fail 1 | _ => destruct c eqn:? end
+  | H : context [if ?c then _ else _] |- _ =>
+      match c with context [if _ then _ else _] => fail 1 | _ => destruct c eqn:? end
+  end.
+
+(* what encode emits stands for a prefix of the pending symbols, exactly (no
+   padding) whenever the chunk could not take another symbol; the rest stays *)
+Lemma encode_full c d :
+  chunk_wf c -> enc_inv c -> can_add c d = false ->
+  let '(p, c') := chunk_encode c in
+  pexpand p ++ pend c' = pend c /\ chunk_wf c' /\ c_n c' <= 6.
+Proof.
+  intros Hwf Henc Hcan. pose proof Hwf as (Hn & Hf & Hl & Hd).
+  assert (H7 : 7 <= c_n c). { unfold can_add in Hcan. destruct (c_n c <? 7) eqn:E; [discriminate|lia]. }
+  unfold chunk_encode.
+  destruct (c_diff c) eqn:Ediff; cbn [negb].
+  - destruct (c_n c =? 14) eqn:E14.
+    + (* one-bit vector of exactly 14 *)
+      cbn [pexpand]. fold (pend c). rewrite pad_to_exact by lia.
+      unfold pend at 2; cbn [chunk_empty c_rev rev]. rewrite app_nil_r.
+      split; [reflexivity|]. split; [apply chunk_wf_empty|cbn; lia].
+    + (* two-bit vector of the first 7 *)
+      fold (pend c). replace (Z.to_nat (Z.min 7 (c_n c))) with 7%nat by lia.
+      cbn [pexpand]. rewrite pad_to_exact by (rewrite firstn_length; lia).
+      rewrite pend_of_list, firstn_skipn. split; [reflexivity|]. split; [apply chunk_wf_of_list|].
+      unfold chunk_of_list; cbn [c_n]. rewrite skipn_length.
+      destruct Henc as [H|[[H _]|[_ H]]]; try lia; congruence.
+  - (* run length *)
+    cbn [pexpand]. unfold pend at 2; cbn [chunk_empty c_rev rev]. rewrite app_nil_r.
+    assert (Hrep := has_diff_false_repeat _ (eq_sym Hd)).
+    rewrite Hf, Hn, Nat2Z.id. split; [symmetry; exact Hrep|]. split; [apply chunk_wf_empty|cbn; lia].
+Qed.
+
+Lemma push_sym_inv st fed d : is_sym d -> pack_inv st fed -> pack_inv (push_sym st d) (fed ++ [d]).
+Proof.
+  destruct st as [chs c]. intros Hd (Hwf & Henc & Hfed). unfold push_sym.
+  destruct (can_add c d) eqn:Hcan.
+  - (* room in the last chunk *)
+    split; [apply chunk_wf_add; auto|]. split.
+    + unfold can_add in Hcan. unfold enc_inv, chunk_add; cbn [c_n c_large c_diff].
+      destruct Hwf as (Hn & Hf & _).
+      destruct (c_n c <? 7) eqn:E7; [left; lia|].
+      destruct ((c_n c <? 14) && negb (c_large c) && negb (d =? 2)) eqn:E14.
+      * right; left. apply andb_prop in E14 as [E14 Ed2]. apply andb_prop in E14 as [E14 El].
+        apply negb_true_iff in El, Ed2. rewrite El, Ed2. split; [lia|reflexivity].
+      * destruct ((c_n c <? 8191) && negb (c_diff c) && (d =? c_first c)) eqn:ER; [|discriminate].
+        right; right. apply andb_prop in ER as [ER Edf]. apply andb_prop in ER as [ER Ed].
+        apply negb_true_iff in Ed. rewrite Ed. destruct (c_n c =? 0) eqn:E0; [lia|].
+        rewrite Edf. split; [lia|reflexivity].
+    + rewrite pend_add, app_assoc, Hfed. reflexivity.
+  - (* encode first *)
+    pose proof (encode_full c d Hwf Henc Hcan) as HE.
+    destruct (chunk_encode c) as [p c']. destruct HE as (Hexp & Hwf' & Hn').
+    split; [apply chunk_wf_add; auto|]. split.
+    + left. unfold chunk_add; cbn [c_n]. lia.
+    + rewrite pexpand_all_app, pend_add. unfold pexpand_all at 2; cbn [flat_map]. rewrite app_nil_r.
+      rewrite <- Hfed, <- Hexp. rewrite <- !app_assoc. reflexivity.
+Qed.
+
+Definition feed (st : list pchunk * chunk) (syms : list Z) : list pchunk * chunk := fold_left push_sym syms st.
+
+Lemma feed_inv syms : forall st fed, syms_ok syms -> pack_inv st fed -> pack_inv (feed st syms) (fed ++ syms).
+Proof.
+  induction syms as [|d tl IH]; intros st fed Hs Hinv; cbn [feed fold_left].
+  - rewrite app_nil_r. exact Hinv.
+  - inversion Hs; subst. replace (fed ++ d :: tl) with ((fed ++ [d]) ++ tl) by (rewrite <- app_assoc; reflexivity).
+    apply IH; auto. apply push_sym_inv; auto.
+Qed.
+
+Lemma pack_inv_init : pack_inv ([], chunk_empty) [].
+Proof. split; [apply chunk_wf_empty|]. split; [left; cbn; lia|reflexivity]. Qed.
+
+(* ------------------------------------------------------------------ *)
+(* draining at getRTCP                                                 *)
+(* ------------------------------------------------------------------ *)
+(* one encode of a non-empty chunk: an exact prefix, or everything plus fewer than 7 zeros *)
+Lemma encode_drain c :
+  chunk_wf c -> enc_inv c -> 0 < c_n c ->
+  let '(p, c') := chunk_encode c in
+  chunk_wf c' /\ enc_inv c' /\ (length (c_rev c') < length (c_rev c))%nat /\
+  ((pexpand p ++ pend c' = pend c) \/
+   (exists k, (k < 7)%nat /\ pexpand p = pend c ++ repeat 0 k /\ c_n c' = 0)).
+Proof.
+  intros Hwf Henc Hpos. pose proof Hwf as (Hn & Hf & Hl & Hd).
+  assert (Hlen : length (c_rev c) = length (pend c)) by (unfold pend; rewrite rev_length; reflexivity).
+  unfold chunk_encode.
+  destruct (c_diff c) eqn:Ediff; cbn [negb].
+  - destruct (c_n c =? 14) eqn:E14.
+    + split; [apply chunk_wf_empty|]. split; [left; cbn; lia|]. split; [cbn [chunk_empty c_rev length]; lia|].
+      left. cbn [pexpand]. fold (pend c). rewrite pad_to_exact by lia.
+      unfold pend at 2; cbn [chunk_empty c_rev rev]. apply app_nil_r.
+    + fold (pend c). split; [apply chunk_wf_of_list|].
+      assert (Hle : c_n c <= 13) by (destruct Henc as [H|[[H _]|[_ H]]]; try lia; congruence).
+      split; [left; unfold chunk_of_list; cbn [c_n]; rewrite skipn_length; lia|].
+      split; [unfold chunk_of_list; cbn [c_rev]; rewrite rev_length, skipn_length; lia|].
+      destruct (c_n c <=? 7) eqn:E7.
+      * right. exists (7 - length (pend c))%nat. split; [lia|].
+        replace (Z.to_nat (Z.min 7 (c_n c))) with (length (pend c)) by lia.
+        rewrite firstn_all, skipn_all. cbn [pexpand]. split; [apply pad_to_short; lia|reflexivity].
+      * left. replace (Z.to_nat (Z.min 7 (c_n c))) with 7%nat by lia.
+        cbn [pexpand]. rewrite pad_to_exact by (rewrite firstn_length; lia).
+        rewrite pend_of_list. apply firstn_skipn.
+  - split; [apply chunk_wf_empty|]. split; [left; cbn; lia|]. split; [cbn [chunk_empty c_rev length]; lia|].
+    left. cbn [pexpand]. unfold pend at 2; cbn [chunk_empty c_rev rev]. rewrite app_nil_r.
+    assert (Hrep := has_diff_false_repeat _ (eq_sym Hd)).
+    rewrite Hf, Hn, Nat2Z.id. symmetry; exact Hrep.
+Qed.
+
+Lemma drain_spec fuel : forall chs c fed,
+  pack_inv (chs, c) fed -> (length (c_rev c) <= fuel)%nat ->
+  exists k, (k < 7)%nat /\ pexpand_all (drain fuel chs c) = fed ++ repeat 0 k.
+Proof.
+  induction fuel as [|fuel IH]; intros chs c fed (Hwf & Henc & Hfed) Hfuel.
+  - exists 0%nat. split; [lia|]. cbn [drain repeat]. rewrite app_nil_r.
+    assert (pend c = []) as Hp. { unfold pend. destruct (c_rev c); [reflexivity|cbn in Hfuel; lia]. }
+    rewrite Hp, app_nil_r in Hfed. exact Hfed.
+  - cbn [drain]. destruct (c_n c >? 0) eqn:Epos.
+    + pose proof (encode_drain c Hwf Henc ltac:(lia)) as HE.
+      destruct (chunk_encode c) as [p c']. destruct HE as (Hwf' & Henc' & Hlt & Hcase).
+      destruct Hcase as [Hex|(k & Hk & Hex & Hz)].
+      * apply IH; [|lia]. split; [auto|]. split; [auto|].
+        rewrite pexpand_all_app. unfold pexpand_all at 2; cbn [flat_map]. rewrite app_nil_r.
+        rewrite <- Hfed, <- Hex, <- !app_assoc. reflexivity.
+      * exists k. split; [auto|].
+        assert (Hd : drain fuel (chs ++ [p]) c' = chs ++ [p]).
+        { destruct fuel; cbn [drain]; [reflexivity|]. rewrite Hz. reflexivity. }
+        rewrite Hd, pexpand_all_app. unfold pexpand_all at 2; cbn [flat_map]. rewrite app_nil_r.
+        rewrite Hex, <- Hfed, <- !app_assoc. reflexivity.
+    + exists 0%nat. split; [lia|]. cbn [repeat]. rewrite app_nil_r.
+      destruct Hwf as (Hn & _). assert (pend c = []) as Hp.
+      { destruct (pend c); [reflexivity|cbn [length] in Hn; lia]. }
+      rewrite Hp, app_nil_r in Hfed. exact Hfed.
+Qed.
+
+(* chunk_roundtrip: feeding any symbol list through the packer and draining it
+   yields chunks whose expansion is the list followed by fewer than 7 zeros *)
+Definition pack_all (syms : list Z) : list pchunk :=
+  let '(chs, c) := feed ([], chunk_empty) syms in drain (length (c_rev c)) chs c.
+
+Theorem chunk_roundtrip syms : syms_ok syms ->
+  exists k, (k < 7)%nat /\ pexpand_all (pack_all syms) = syms ++ repeat 0 k.
+Proof.
+  intros Hs. unfold pack_all.
+  pose proof (feed_inv syms ([], chunk_empty) [] Hs pack_inv_init) as Hinv. cbn [app] in Hinv.
+  destruct (feed ([], chunk_empty) syms) as [chs c].
+  apply (drain_spec (length (c_rev c)) chs c syms Hinv). lia.
+Qed.
+
+(* ------------------------------------------------------------------ *)
+(* validity of emitted chunks on the wire                              *)
+(* ------------------------------------------------------------------ *)
+(* run lengths fit 13 bits, one-bit vectors hold only 0/1, all symbols are 0..2:
+   then the wire truncations of wire_chunk are the identity *)
+Definition pchunk_valid (p : pchunk) : Prop :=
+  match p with
+  | RL s n => is_sym s /\ 0 < n <= 8191
+  | SV1 l => Forall (fun d => d = 0 \/ d = 1) l /\ length l = 14%nat
+  | SV2 l => syms_ok l /\ (0 < length l <= 7)%nat
+  end.
+
+Definition expand_wire (c : Z * list Z) : list Z :=
+  match c with
+  | (0, [s; n]) => repeat s (Z.to_nat n)
+  | (0, _) => []
+  | (_, l) => l
+  end.
+
+Lemma map_id_on {A} (f : A -> A) l : Forall (fun x => f x = x) l -> map f l = l.
+Proof. induction 1; cbn; congruence. Qed.
+
+Lemma expand_wire_chunk p : pchunk_valid p -> expand_wire (wire_chunk p) = pexpand p.
+Proof.
+  destruct p as [s n|l|l]; cbn [pchunk_valid wire_chunk pexpand expand_wire].
+  - intros ([-> | [-> | ->]] & Hn); rewrite Z.mod_small by lia; reflexivity.
+  - intros (Hb & _). rewrite map_id_on; [reflexivity|].
+    eapply Forall_impl; [|exact Hb]. intros a [-> | ->]; reflexivity.
+  - intros (Hb & _). rewrite map_id_on; [reflexivity|].
+    eapply Forall_impl; [|exact Hb]. intros a [-> | [-> | ->]]; reflexivity.
+Qed.
+
+(* ------------------------------------------------------------------ *)
+(* rounding                                                            *)
+(* ------------------------------------------------------------------ *)
+(* time_within_125us, the arithmetic core: the rounded delta is within 125 us *)
+Lemma round250_within d : Z.abs (d - round250 d * 250) <= 125.
+Proof.
+  unfold round250. destruct (d >=? 0) eqn:E.
+  - lia.
+  - assert (Hq := Z.quot_rem' (d - 125) 250).
+    assert (Hr := Z.rem_bound_neg (d - 125) 250 ltac:(lia) ltac:(lia)).
+    lia.
 Qed.
